@@ -95,11 +95,16 @@ def build(variant="plain"):
     return so
 
 
-def _prune(keep=12):
+def _prune(keep=24):
     root = os.path.join(CACHE, "cbuild")
     try:
+        import time
         ds = [os.path.join(root, x) for x in os.listdir(root)]
-        ds = [x for x in ds if os.path.isdir(x)]
+        # never touch a build in progress (vtbuild-*) unless it is clearly abandoned
+        for x in ds:
+            if os.path.basename(x).startswith("vtbuild-") and time.time() - os.path.getmtime(x) > 3600:
+                shutil.rmtree(x, ignore_errors=True)
+        ds = [x for x in ds if os.path.isdir(x) and not os.path.basename(x).startswith("vtbuild-")]
         ds.sort(key=os.path.getmtime)
         for x in ds[:-keep]:
             shutil.rmtree(x, ignore_errors=True)
